@@ -181,6 +181,7 @@ def run(ctx):
     choicelib.run_half_step(ctx, 60 if ctx.tier == 'quick' else 600)
     choicelib.run_scaling(ctx, 25 if ctx.tier == 'quick' else 400)
     choicelib.run_rounded_totals(ctx)
+    choicelib.run_key_lengths(ctx, 17 if ctx.tier == 'quick' else 21)
     choicelib.run_numeric_twin_sequences(ctx)
     choicelib.run_ulp_boundaries(ctx)
 
